@@ -60,6 +60,8 @@ REQUIRE = {
     "form:IntEdit:defaults": 2,
     "numeric_constructed_through_deprecated_option": 5,
     "directed:46b965d": 60,
+    "directed:46b965d-history": 300,
+    "op:set_encoding-after-construction": 400,
     "directed:c084bec": 40,
     "directed:ba58766": 500,
     "directed:e0fc36b": 30,
@@ -80,7 +82,7 @@ RULE = (
     "encoding has / lacks into bytes text under every encoding, handler-visible offset around multi-byte neighbours, "
     "half wide characters in 1..3 column views, zero-width-only lines and words, FloatEdit defaults x separator x "
     "constructor form, sign / non-ASCII look-alike keys in the numeric editors), all run on every run; "
-    "(a) sweep (time-bounded sample in hashed order of ~160k states): curated (caption,text) x str|bytes x 3 encodings x "
+    "(a) sweep (time-bounded uniform sample of ~200k states): curated (caption,text) x str|bytes x 3 encodings x "
     "width 1..12 x wrap x align x every offset, each of the used keys / a narrow and a "
     "wide printable / a click on every cell applied from that state (state restored with set_edit_text/set_edit_pos "
     "between probes); (b) random 5..40-op histories of printables, left/right/up/down/home/end, backspace, delete, "
@@ -414,6 +416,7 @@ class Session:
         self.siglog = []
         self.judged = 0
         self.flag_stale = False
+        self.enc_switched = False
         self.memo = self.memo2 = None
         self.numeric = None
         self.sigbase = f"C10|{self.cls}"
@@ -521,7 +524,7 @@ class Session:
     def fresh(self, focus):
         """layout reported by a fresh Edit with the model's state; returns (trans, rows|None)"""
         d, m = self.desc, self.model
-        key = (bool(focus), m.text, m.pos, self.size)
+        key = (bool(focus), m.text, m.pos, self.size, self.enc)
         if self.memo and self.memo[0] == key:
             return self.memo[1]
         if self.memo2 and self.memo2[0] == key:
@@ -691,6 +694,8 @@ class Session:
                 kind = "text-mismatch"
                 if self.opname == "char":
                     kind += "|key=" + ("ascii" if self.lastkey.isascii() else "non-ascii")
+                    if self.enc_switched:
+                        kind += "|after-set_encoding-since-construction"
             else:
                 kind = "pos-mismatch"
                 exp = {oc.pos for oc in ocs if oc.text == t}
@@ -811,6 +816,23 @@ class Session:
             if (op[1],) != self.size:
                 self.size = (op[1],)
                 self.model.prefs = frozenset([None])  # preferred column belongs to a width
+        elif kind == "setenc":
+            # the application switches the active encoding while the widget lives (text must be ASCII at this point)
+            self.opname = "setenc"
+            sink.count("op:set_encoding-after-construction")
+            enc = op[1]
+            self.u.set_encoding(enc)
+            self.enc = enc
+            self.mode_enc = ENC_MODE[enc]
+            self.cs = R.Charset(self.is_bytes, self.mode_enc, enc)
+            self.mode = self.cs.mode
+            self.model.cs = self.cs
+            self.enc_switched = True
+            self.memo = self.memo2 = None
+            self.keep.clear()
+            self.u.CanvasCache.clear()
+            w._invalidate()  # what an application does after set_encoding: redraw everything
+            self.check_unchanged("set_encoding")
         elif kind == "set":
             self.opname = "set"
             off = len(self.conv(self.desc["text"][: op[1]])) if self.cls == "Edit" else min(op[1], len(self.init_text))
@@ -1101,6 +1123,22 @@ def directed_descs():
                 ops = K(ch, "left", "right", ch, "backspace", "home", "delete", "end", "up", "down")
                 yield "46b965d", _plain(enc, True, "> ", "ab", width, ops, pos=1)
                 yield "46b965d", _plain(enc, True, "", "", width, ops, wrap="clip")
+    # 46b965d (history form): the encoding changes between construction and key presses, and between key presses;
+    # the typed character must arrive in the encoding active WHEN IT IS TYPED (text is ASCII at every switch)
+    encs = [e for e in ENC_MODE]
+    for a in encs:
+        for b in encs:
+            if a == b:
+                continue
+            ca = (ALPHA[a].get("wide", "") + ALPHA[a].get("latin", ""))[:1] or "x"
+            nb = ALPHA[b].get("wide", "") + ALPHA[b].get("latin", "")
+            cb = nb[:1] or (FOREIGN[b][:1] or ["y"])[0]
+            cb2 = nb[1:2] or cb
+            for is_bytes in (True, False):
+                if not is_bytes and not nb:
+                    cb = cb2 = "y"  # str text must stay displayable in the new encoding
+                yield "46b965d-history", _plain(a, is_bytes, "> ", "ab", 9, [["setenc", b]] + K(cb, "left", "right", cb2, "backspace", "home", "end", "left"), pos=1)
+                yield "46b965d-history", _plain(a, is_bytes, "", "", 6, K(ca, "backspace") + [["setenc", b]] + K(cb, "a", cb2, "left", "right", "backspace", "backspace", "backspace") + [["setenc", a]] + K(ca, "left", "right", "a"), wrap="clip")
     # c084bec offset seen by change/postchange during backspace (bytes text, multi-byte neighbours), delete too
     for enc, text in (("utf-8", "あaいb"), ("utf-8", "b😀é"), ("euc-jp", " 漢"), ("euc-jp", "あaいb"), ("gbk", "a漢b"), ("iso8859-1", "aéb")):
         for pos in range(len(text) + 1):
@@ -1216,24 +1254,22 @@ def run(ctx):
                 execute(ctx, desc, seen)
                 ctx.count("directed_sessions")
                 ctx.count(f"directed:{family}")
-        # (a) depth-1 sweep: states visited in a seed-dependent hashed order (so a time-bounded run samples
-        # every encoding / text type / wrap / align evenly), partitioned over shards, until half the budget is used
-        states = [(cfg, pos) for cfg in sweep_configs() for pos in range(len(cfg[3]) + 1)]
-        states.sort(key=lambda st: core.h64([ctx.seed, st]))
+        # (a) depth-1 sweep: states sampled uniformly over the configurations (so a time-bounded run covers every
+        # encoding / text type / wrap / align evenly) until half the budget is used
+        configs = list(sweep_configs())
+        srng = ctx.subrng("sweep")  # per-shard stream: shards sample the state space independently
         sweep_done = 0
-        for idx, (cfg, pos) in enumerate(states):
-            if not ctx.mine(idx):
-                continue
-            if not ctx.more(0.5):
-                break
-            desc = sweep_desc(cfg, pos, (idx // ctx.nshards) & 3)
+        cap = ctx.pick(4000, 40000)
+        while ctx.more(0.5) and sweep_done < cap:
+            cfg = srng.choice(configs)
+            pos = srng.randint(0, len(cfg[3]))
+            desc = sweep_desc(cfg, pos, srng.randrange(4))
             execute(ctx, desc, seen)
             sweep_done += 1
             ctx.count("sweep_sessions")
             if sweep_done == 1:
                 ctx.sample({k: v for k, v in desc.items() if k != "ops"} | {"ops": desc["ops"][:6] + ["..."]})
-        ctx.extra["sweep_states_total"] = len(states)
-        ctx.extra["sweep_complete_in_budget"] = bool(ctx.more(0.5))
+        ctx.extra["sweep_states_total"] = sum(len(c[3]) + 1 for c in configs)
         # (b) random histories
         k = 0
         while ctx.more(1.0):
